@@ -219,7 +219,7 @@ theorem failed_set_untouched (s : State) (i : Nat) (v : Boxed) (h : (step false 
 theorem other_variables_untouched (s : State) (op : Op) (a : Nat)
     (h : match op with
          | .set i _ | .apply i _ | .cancel i => a ≠ (s.mks i).addr
-         | .look .. | .lookBad _ => True
+         | .look .. | .lookBad _ | .pkg .. => True
          | .write c _ => a ≠ c
          | .reset .. => False) :
     (step false s op).1.mem a = s.mem a := by
@@ -246,6 +246,7 @@ theorem other_variables_untouched (s : State) (op : Op) (a : Nat)
     | none => rfl
     | some i => simp only; split <;> rfl
   | lookBad p => rfl
+  | pkg b p => rfl
   | set i v => exact hset i v h
   | apply i cb =>
     simp only [step, applyOp]
@@ -278,10 +279,40 @@ theorem reset_touches_only_own (s : State) (hI : Inv s) (b : Nat) (ord : List (B
   (resetGo_spec b ord hI _ rfl).2.2.2.2.2.2.2 a h
 
 /-- **Re-lookup through the builder cache.**  While a mocker holds a mock, `b.Var(&v)` / `b.UnExportedVar(name)`
-    return that very mocker (so a further `Set` keeps the saved origin) and change nothing else. -/
+    return that very mocker (so a further `Set` keeps the saved origin) and change nothing but the builder's package
+    override, which they reset. -/
 theorem relookup_returns_same_mocker (s : State) (hI : Inv s) (i : Nat) (hm : (s.mks i).mocked = true) :
-    step false s (.look (s.mks i).b (s.mks i).ue (s.mks i).addr) = ({ s with ret := i }, .ok) := by
+    step false s (.look (s.mks i).b (s.mks i).ue (s.mks i).addr) =
+      ({ s with ret := i, pkg := upd s.pkg (s.mks i).b 0 }, .ok) := by
   simp [step, look, hI.cur i hm, hI.act i hm]
+
+/-- **The cache key does not depend on `Builder.pkgName`.**  Whatever package overrides are pending — any sequence of
+    `Pkg(p)` calls on any builders, in particular `b.Pkg(p).UnExportedVar(name)` — the lookup of a variable that holds a
+    mock returns the mocker that holds it: no second mocker (whose saved origin would be the mock value) is created,
+    no variable and no mocker changes. -/
+theorem relookup_under_pkg_override (s : State) (hI : Inv s) (i : Nat) (hm : (s.mks i).mocked = true)
+    (pkgs : List (Nat × Nat)) :
+    let s1 := run false s (pkgs.map (fun q => Op.pkg q.1 q.2))
+    let r := step false s1 (.look (s.mks i).b (s.mks i).ue (s.mks i).addr)
+    r.2 = .ok ∧ r.1.ret = i ∧ r.1.mem = s.mem ∧ r.1.mks = s.mks ∧ r.1.cache = s.cache ∧ r.1.n = s.n ∧
+      r.1.pkg (s.mks i).b = 0 := by
+  intro s1 r
+  have h1 : ∀ (l : List (Nat × Nat)) (t : State),
+      (run false t (l.map (fun q => Op.pkg q.1 q.2))).mem = t.mem ∧
+      (run false t (l.map (fun q => Op.pkg q.1 q.2))).mks = t.mks ∧
+      (run false t (l.map (fun q => Op.pkg q.1 q.2))).cache = t.cache ∧
+      (run false t (l.map (fun q => Op.pkg q.1 q.2))).n = t.n := by
+    intro l
+    induction l with
+    | nil => intro t; exact ⟨rfl, rfl, rfl, rfl⟩
+    | cons q rest ih => intro t; exact ih _
+  obtain ⟨e1, e2, e3, e4⟩ := h1 pkgs s
+  have hc : s1.cache (s.mks i).b (s.mks i).ue (s.mks i).addr = some i := by
+    show (run false s _).cache _ _ _ = _; rw [e3]; exact hI.cur i hm
+  have hk : (s1.mks i).canceled = false := by
+    show ((run false s _).mks i).canceled = _; rw [e2]; exact hI.act i hm
+  simp only [r, step, look, hc, hk]
+  exact ⟨rfl, rfl, e1, e2, e3, e4, by simp⟩
 
 /-- The invariant holds initially and is kept by every good history: the hypotheses `Inv` above are satisfiable by
     every state the API can reach. -/
